@@ -1048,6 +1048,12 @@ func genConcurrent(r *rand.Rand, id string, size int, total int) []string {
 		}
 		g.add("cwrite %d %d order=%s", p, n, order)
 		g.add("obs %d", p)
+		// two writers of one key, the first held between copying the log and rebuilding the view
+		if kind != "log" && g.pick(2) == 0 {
+			key := []string{"k", "d", "c0", "z"}[g.pick(4)]
+			g.add("staleidx %d %s %s %s", p, hx([]byte(key)), hx([]byte(fmt.Sprintf("s%d", g.pick(1000)))), hx([]byte(fmt.Sprintf("t%d", g.pick(1000)))))
+			g.add("obs %d", p)
+		}
 	}
 	g.add("restart %d", p)
 	g.add("obs %d", p)
